@@ -972,11 +972,12 @@ def read_index_dict_with_version(
         if len(signature) < 4:
             break
 
-        # Check if it's a valid extension signature (4 uppercase letters)
-        if not all(65 <= b <= 90 for b in signature):
-            # Not an extension, seek back
-            f.seek(-4, 1)
-            break
+        # Everything between the entries and the checksum is extensions.  A
+        # signature starting with 'A'..'Z' is optional, others are mandatory.
+        if not (65 <= signature[0] <= 90) and signature != SDIR_EXTENSION:
+            raise AssertionError(
+                f"index uses {signature!r} extension, which we do not understand"
+            )
 
         # Read extension size
         size_data = f.read(4)
